@@ -602,6 +602,27 @@ def built_slice() -> Tuple[int, List[Violation]]:
                                    {"kind": "built", "a": e1, "b": e2}))
         elif s1 == sf and v1 != vf:
             viols.append(Violation("unsound-signature", f"two built sweeps report one signature and produce {v1} vs {vf}", {"kind": "built", "a": e1, "b": e2}))
+    # somebody else in the process builds an evaluator with its own functions: the value of an expression compiled by a DEFAULT
+    # evaluator — before or after — is still the one its signature stands for
+    from semantiva.utils.safe_eval import ExpressionEvaluator
+
+    probes = ["round(t / 2) + u", "u + round(t / 2)", "abs(t - 2) * max(t, u)", "min(t, u) + float(int(t))"]
+    python_vals = {"round(t / 2) + u": [round(1.0 / 2) + 2.0, round(3.0 / 2) + 2.0], "u + round(t / 2)": [2.0 + round(1.0 / 2), 2.0 + round(3.0 / 2)],
+                   "abs(t - 2) * max(t, u)": [abs(1.0 - 2) * max(1.0, 2.0), abs(3.0 - 2) * max(3.0, 2.0)], "min(t, u) + float(int(t))": [min(1.0, 2.0) + 1.0, min(3.0, 2.0) + 3.0]}
+    early = {e: build({"value": e}) for e in probes}
+    first = {e: vals(c) for e, c in early.items()}
+    custom = ExpressionEvaluator({"round": lambda x, nd=0: 42.0, "abs": lambda x: -7.0, "max": min, "float": lambda x: 0.0, "spare": lambda x: x})
+    try:
+        custom.compile("round(t) + spare(t)", {"t"})(t=1.0)
+    except Exception:
+        pass
+    for e in probes:
+        late = build({"value": e})
+        n += 2
+        for when, got in (("built before", vals(early[e])), ("built after", vals(late))):
+            if got != python_vals[e] or got != first[e]:
+                viols.append(Violation("value-depends-on-foreign-evaluator", f"{e!r} ({when} a custom evaluator overriding round/abs/max/float was created) yields {got}; "
+                                       f"its meaning is {python_vals[e]} (first evaluation: {first[e]})", {"kind": "built", "a": e, "b": when}))
     return n, viols
 
 
